@@ -16,6 +16,7 @@ import (
 	"math/big"
 	"os"
 	"testing"
+	"time"
 
 	"github.com/cloudflare/circl/internal/verifmc"
 	"github.com/cloudflare/circl/internal/verifref/curvealpha"
@@ -32,110 +33,120 @@ func TestVerifC13_refcheck(t *testing.T) {
 		"zkcrypto BLS12-381 [i]G vectors i<1000 (4 files in ecc/bls12381/testdata), crypto/ed25519 key derivation, RFC 8032 Ed448 vector, " +
 		"RFC 9496 generator multiples, group orders, isogeny identities, GF(p^12) field order; distinct = each vector compared")
 
+	var sections []func()
 	// ---- NIST curves against crypto/elliptic (two implementations)
 	for _, tc := range []struct {
 		c   *wcurve.Curve
 		std elliptic.Curve
 	}{{wcurve.P256(), elliptic.P256()}, {wcurve.P384(), elliptic.P384()}, {wcurve.P521(), elliptic.P521()}} {
-		c, std := tc.c, tc.std
-		sp := std.Params()
-		if c.F.P.Cmp(sp.P) != 0 || c.N.Cmp(sp.N) != 0 || c.B.A.Cmp(sp.B) != 0 || c.G.X.A.Cmp(sp.Gx) != 0 || c.G.Y.A.Cmp(sp.Gy) != 0 {
-			{t.Errorf("%s: parameters differ from crypto/elliptic", c.Name); return }
-		}
-		generic := *sp // a copy is not recognised as a named curve, so the generic Jacobian big.Int code runs
-		gen := &generic
-		toStd := func(P wcurve.Point) (x, y *big.Int) {
-			if P.Inf {
-				return new(big.Int), new(big.Int)
-			}
-			return P.X.A, P.Y.A
-		}
-		same := func(P wcurve.Point, x, y *big.Int) bool {
-			px, py := toStd(P)
-			return px.Cmp(x) == 0 && py.Cmp(y) == 0
-		}
-		sc := curvealpha.Scalars(c.N, 8*((c.N.BitLen()+7)/8), 0)
-		logs := curvealpha.PointLogs(c.N)
-		verifmc.ParallelFor(len(sc), func(i int) {
-			k := sc[i].V
-			kb := k.FillBytes(make([]byte, (c.N.BitLen()+7)/8))
-			P := c.BaseMult(k)
-			if !c.Equal(P, c.ScalarMult(k, c.G)) || !c.IsOnCurve(P) {
-				t.Errorf("%s: BaseMult != ScalarMult(G) at %s", c.Name, sc[i].Name)
-			}
-			x, y := std.ScalarBaseMult(kb)
-			gx, gy := gen.ScalarBaseMult(kb)
-			if !same(P, x, y) || !same(P, gx, gy) {
-				t.Errorf("%s: [%s]G differs from crypto/elliptic", c.Name, sc[i].Name)
-			}
-			r.Eval(3)
-			r.Distinct(c.Name, "base", sc[i].Name)
-			// variable base on the two pseudo-random points
-			for _, a := range logs {
-				if a.Name != "[s0]G" && a.Name != "-1G" {
-					continue
+		tc := tc
+		sections = append(sections, func() {
+			c, std := tc.c, tc.std
+			sp := std.Params()
+			if c.F.P.Cmp(sp.P) != 0 || c.N.Cmp(sp.N) != 0 || c.B.A.Cmp(sp.B) != 0 || c.G.X.A.Cmp(sp.Gx) != 0 || c.G.Y.A.Cmp(sp.Gy) != 0 {
+				{
+					t.Errorf("%s: parameters differ from crypto/elliptic", c.Name)
+					return
 				}
-				Q := c.BaseMult(a.V)
-				qx, qy := toStd(Q)
-				R := c.ScalarMult(k, Q)
-				x, y := std.ScalarMult(qx, qy, kb)
-				if !same(R, x, y) {
-					t.Errorf("%s: [%s]%s differs from crypto/elliptic", c.Name, sc[i].Name, a.Name)
+			}
+			generic := *sp // a copy is not recognised as a named curve, so the generic Jacobian big.Int code runs
+			gen := &generic
+			toStd := func(P wcurve.Point) (x, y *big.Int) {
+				if P.Inf {
+					return new(big.Int), new(big.Int)
 				}
-				r.Eval(1)
-				r.Distinct(c.Name, "var", sc[i].Name, a.Name)
+				return P.X.A, P.Y.A
+			}
+			same := func(P wcurve.Point, x, y *big.Int) bool {
+				px, py := toStd(P)
+				return px.Cmp(x) == 0 && py.Cmp(y) == 0
+			}
+			sc := curvealpha.Scalars(c.N, 8*((c.N.BitLen()+7)/8), 0)
+			logs := curvealpha.PointLogs(c.N)
+			verifmc.ParallelFor(len(sc), func(i int) {
+				k := sc[i].V
+				kb := k.FillBytes(make([]byte, (c.N.BitLen()+7)/8))
+				P := c.BaseMult(k)
+				if !c.Equal(P, c.ScalarMult(k, c.G)) || !c.IsOnCurve(P) {
+					t.Errorf("%s: BaseMult != ScalarMult(G) at %s", c.Name, sc[i].Name)
+				}
+				x, y := std.ScalarBaseMult(kb)
+				gx, gy := gen.ScalarBaseMult(kb)
+				if !same(P, x, y) || !same(P, gx, gy) {
+					t.Errorf("%s: [%s]G differs from crypto/elliptic", c.Name, sc[i].Name)
+				}
+				r.Eval(3)
+				r.Distinct(c.Name, "base", sc[i].Name)
+				// variable base on the two pseudo-random points
+				for _, a := range logs {
+					if a.Name != "[s0]G" && a.Name != "-1G" {
+						continue
+					}
+					Q := c.BaseMult(a.V)
+					qx, qy := toStd(Q)
+					R := c.ScalarMult(k, Q)
+					x, y := std.ScalarMult(qx, qy, kb)
+					if !same(R, x, y) {
+						t.Errorf("%s: [%s]%s differs from crypto/elliptic", c.Name, sc[i].Name, a.Name)
+					}
+					r.Eval(1)
+					r.Distinct(c.Name, "var", sc[i].Name, a.Name)
+				}
+			})
+			// addition table on the point alphabet
+			pts := make([]wcurve.Point, len(logs))
+			for i, a := range logs {
+				pts[i] = c.BaseMult(a.V)
+			}
+			for i := range pts {
+				for j := range pts {
+					S := c.Add(pts[i], pts[j])
+					want := c.BaseMult(new(big.Int).Add(logs[i].V, logs[j].V))
+					x1, y1 := toStd(pts[i])
+					x2, y2 := toStd(pts[j])
+					var gx, gy *big.Int
+					if i == j && !pts[i].Inf {
+						gx, gy = gen.Double(x1, y1)
+					} else {
+						gx, gy = gen.Add(x1, y1, x2, y2)
+					}
+					nx, ny := std.Add(x1, y1, x2, y2)
+					if !c.Equal(S, want) || !same(S, nx, ny) || !same(S, gx, gy) {
+						t.Errorf("%s: %s + %s: reference disagrees with crypto/elliptic or with its own BaseMult", c.Name, logs[i].Name, logs[j].Name)
+					}
+					r.Eval(1)
+					r.Distinct(c.Name, "add", i, j)
+				}
+			}
+			// SEC1 round trips against the standard library
+			for i, P := range pts {
+				for _, comp := range []bool{false, true} {
+					enc := c.MarshalSEC1(P, comp)
+					if !P.Inf {
+						var want []byte
+						if comp {
+							want = elliptic.MarshalCompressed(std, P.X.A, P.Y.A)
+						} else {
+							want = elliptic.Marshal(std, P.X.A, P.Y.A)
+						}
+						if !bytes.Equal(enc, want) {
+							t.Errorf("%s: SEC1 encoding of %s differs", c.Name, logs[i].Name)
+						}
+					}
+					Q, err := c.UnmarshalSEC1(enc)
+					if err != nil || !c.Equal(P, Q) {
+						t.Errorf("%s: SEC1 round trip of %s", c.Name, logs[i].Name)
+					}
+					r.Distinct(c.Name, "sec1", i, comp)
+				}
+			}
+			if !c.ScalarMult(c.N, c.G).Inf {
+				{
+					t.Errorf("%s: [n]G != O", c.Name)
+					return
+				}
 			}
 		})
-		// addition table on the point alphabet
-		pts := make([]wcurve.Point, len(logs))
-		for i, a := range logs {
-			pts[i] = c.BaseMult(a.V)
-		}
-		for i := range pts {
-			for j := range pts {
-				S := c.Add(pts[i], pts[j])
-				want := c.BaseMult(new(big.Int).Add(logs[i].V, logs[j].V))
-				x1, y1 := toStd(pts[i])
-				x2, y2 := toStd(pts[j])
-				var gx, gy *big.Int
-				if i == j && !pts[i].Inf {
-					gx, gy = gen.Double(x1, y1)
-				} else {
-					gx, gy = gen.Add(x1, y1, x2, y2)
-				}
-				nx, ny := std.Add(x1, y1, x2, y2)
-				if !c.Equal(S, want) || !same(S, nx, ny) || !same(S, gx, gy) {
-					t.Errorf("%s: %s + %s: reference disagrees with crypto/elliptic or with its own BaseMult", c.Name, logs[i].Name, logs[j].Name)
-				}
-				r.Eval(1)
-				r.Distinct(c.Name, "add", i, j)
-			}
-		}
-		// SEC1 round trips against the standard library
-		for i, P := range pts {
-			for _, comp := range []bool{false, true} {
-				enc := c.MarshalSEC1(P, comp)
-				if !P.Inf {
-					var want []byte
-					if comp {
-						want = elliptic.MarshalCompressed(std, P.X.A, P.Y.A)
-					} else {
-						want = elliptic.Marshal(std, P.X.A, P.Y.A)
-					}
-					if !bytes.Equal(enc, want) {
-						t.Errorf("%s: SEC1 encoding of %s differs", c.Name, logs[i].Name)
-					}
-				}
-				Q, err := c.UnmarshalSEC1(enc)
-				if err != nil || !c.Equal(P, Q) {
-					t.Errorf("%s: SEC1 round trip of %s", c.Name, logs[i].Name)
-				}
-				r.Distinct(c.Name, "sec1", i, comp)
-			}
-		}
-		if !c.ScalarMult(c.N, c.G).Inf {
-			{t.Errorf("%s: [n]G != O", c.Name); return }
-		}
 	}
 
 	// ---- BLS12-381 against the zkcrypto serialisation vectors ([i]G, i = 0..999)
@@ -147,55 +158,85 @@ func TestVerifC13_refcheck(t *testing.T) {
 		{wcurve.BLS12381G1(), "g1_uncompressed", false}, {wcurve.BLS12381G1(), "g1_compressed", true},
 		{wcurve.BLS12381G2(), "g2_uncompressed", false}, {wcurve.BLS12381G2(), "g2_compressed", true},
 	} {
-		data, err := os.ReadFile("../../ecc/bls12381/testdata/" + tc.file + "_valid_test_vectors.dat")
-		if err != nil {
-			{t.Error(err); return }
-		}
-		c := tc.c
-		sz := c.ByteLen * c.F.Deg
-		if !tc.comp {
-			sz *= 2
-		}
-		if len(data) != 1000*sz {
-			{t.Errorf("%s: unexpected vector file size %d", tc.file, len(data)); return }
-		}
-		P := c.Infinity()
-		for i := 0; i < 1000; i++ {
-			want := data[i*sz : (i+1)*sz]
-			if got := c.MarshalBLS(P, tc.comp); !bytes.Equal(got, want) {
-				{t.Errorf("%s: [%d]G encodes to %x, vector %x", tc.file, i, got, want); return }
-			}
-			if i%50 == 0 || i < 20 {
-				Q, err := c.UnmarshalBLS(want)
-				if err != nil || !c.Equal(P, Q) {
-					{t.Errorf("%s: decoding vector %d: %v", tc.file, i, err); return }
-				}
-				if !c.Equal(P, c.BaseMult(big.NewInt(int64(i)))) {
-					{t.Errorf("%s: BaseMult(%d)", tc.file, i); return }
+		tc := tc
+		sections = append(sections, func() {
+			data, err := os.ReadFile("../../ecc/bls12381/testdata/" + tc.file + "_valid_test_vectors.dat")
+			if err != nil {
+				{
+					t.Error(err)
+					return
 				}
 			}
-			r.Eval(1)
-			r.Distinct(tc.file, i)
-			P = c.Add(P, c.G)
-		}
+			c := tc.c
+			sz := c.ByteLen * c.F.Deg
+			if !tc.comp {
+				sz *= 2
+			}
+			if len(data) != 1000*sz {
+				{
+					t.Errorf("%s: unexpected vector file size %d", tc.file, len(data))
+					return
+				}
+			}
+			P := c.Infinity()
+			for i := 0; i < 1000; i++ {
+				want := data[i*sz : (i+1)*sz]
+				if got := c.MarshalBLS(P, tc.comp); !bytes.Equal(got, want) {
+					{
+						t.Errorf("%s: [%d]G encodes to %x, vector %x", tc.file, i, got, want)
+						return
+					}
+				}
+				if i%50 == 0 || i < 20 {
+					Q, err := c.UnmarshalBLS(want)
+					if err != nil || !c.Equal(P, Q) {
+						{
+							t.Errorf("%s: decoding vector %d: %v", tc.file, i, err)
+							return
+						}
+					}
+					if !c.Equal(P, c.BaseMult(big.NewInt(int64(i)))) {
+						{
+							t.Errorf("%s: BaseMult(%d)", tc.file, i)
+							return
+						}
+					}
+				}
+				r.Eval(1)
+				r.Distinct(tc.file, i)
+				P = c.Add(P, c.G)
+			}
+		})
 	}
 	for _, c := range []*wcurve.Curve{wcurve.BLS12381G1(), wcurve.BLS12381G2()} {
-		if !c.IsOnCurve(c.G) || !c.ScalarMult(c.N, c.G).Inf || !c.Equal(c.BaseMult(new(big.Int).Sub(c.N, big.NewInt(1))), c.Neg(c.G)) {
-			{t.Errorf("%s: order of G", c.Name); return }
-		}
-		for _, s := range curvealpha.Scalars(c.N, 256, 0) {
-			if !c.Equal(c.BaseMult(s.V), c.ScalarMult(s.V, c.G)) {
-				{t.Errorf("%s: BaseMult != ScalarMult at %s", c.Name, s.Name); return }
+		c := c
+		sections = append(sections, func() {
+			if !c.IsOnCurve(c.G) || !c.ScalarMult(c.N, c.G).Inf || !c.Equal(c.BaseMult(new(big.Int).Sub(c.N, big.NewInt(1))), c.Neg(c.G)) {
+				{
+					t.Errorf("%s: order of G", c.Name)
+					return
+				}
 			}
-			r.Eval(2)
-		}
+			for _, s := range curvealpha.Scalars(c.N, 256, 0) {
+				if !c.Equal(c.BaseMult(s.V), c.ScalarMult(s.V, c.G)) {
+					{
+						t.Errorf("%s: BaseMult != ScalarMult at %s", c.Name, s.Name)
+						return
+					}
+				}
+				r.Eval(2)
+			}
+		})
 	}
 
 	// ---- edwards25519 against crypto/ed25519 key derivation
-	{
+	sections = append(sections, func() {
 		c := ecurve.Edwards25519()
 		if !c.IsOnCurve(c.G) || !c.IsIdentity(c.ScalarMult(c.N, c.G)) {
-			{t.Error("edwards25519: base point"); return }
+			{
+				t.Error("edwards25519: base point")
+				return
+			}
 		}
 		for i, seed := range verifmc.Seeds(32, 0) {
 			pub := ed25519.NewKeyFromSeed(seed).Public().(ed25519.PublicKey)
@@ -206,24 +247,36 @@ func TestVerifC13_refcheck(t *testing.T) {
 			s := fpx.FromLE(h[:32])
 			P := c.BaseMult(s)
 			if !c.Equal(P, c.ScalarMult(s, c.G)) {
-				{t.Error("edwards25519: BaseMult != ScalarMult"); return }
+				{
+					t.Error("edwards25519: BaseMult != ScalarMult")
+					return
+				}
 			}
 			if got := c.MarshalRFC8032(P); !bytes.Equal(got, pub) {
-				{t.Errorf("edwards25519: public key %d: %x want %x", i, got, pub); return }
+				{
+					t.Errorf("edwards25519: public key %d: %x want %x", i, got, pub)
+					return
+				}
 			}
 			Q, err := c.UnmarshalRFC8032(pub)
 			if err != nil || !c.Equal(P, Q) {
-				{t.Error("edwards25519: decode"); return }
+				{
+					t.Error("edwards25519: decode")
+					return
+				}
 			}
 			r.Eval(2)
 			r.Distinct("ed25519", i)
 		}
-	}
+	})
 	// ---- edwards448 against the RFC 8032 7.4 vectors (first two)
-	{
+	sections = append(sections, func() {
 		c := ecurve.Edwards448()
 		if !c.IsOnCurve(c.G) || !c.IsIdentity(c.ScalarMult(c.N, c.G)) {
-			{t.Error("edwards448: base point"); return }
+			{
+				t.Error("edwards448: base point")
+				return
+			}
 		}
 		for i, v := range [][2]string{
 			{"6c82a562cb808d10d632be89c8513ebf6c929f34ddfa8c9f63c9960ef6e348a3528c8a3fcc2f044e39a3fc5b94492f8f032e7549a20098f95b",
@@ -241,11 +294,17 @@ func TestVerifC13_refcheck(t *testing.T) {
 			s := fpx.FromLE(h[:57])
 			P := c.BaseMult(s)
 			if got := c.MarshalRFC8032(P); !bytes.Equal(got, pk) {
-				{t.Errorf("edwards448: RFC 8032 vector %d: %x want %x", i, got, pk); return }
+				{
+					t.Errorf("edwards448: RFC 8032 vector %d: %x want %x", i, got, pk)
+					return
+				}
 			}
 			Q, err := c.UnmarshalRFC8032(pk)
 			if err != nil || !c.Equal(P, Q) || !c.Equal(P, c.ScalarMult(s, c.G)) {
-				{t.Error("edwards448: decode / ScalarMult"); return }
+				{
+					t.Error("edwards448: decode / ScalarMult")
+					return
+				}
 			}
 			r.Eval(2)
 			r.Distinct("ed448", i)
@@ -257,49 +316,73 @@ func TestVerifC13_refcheck(t *testing.T) {
 			P := c.BaseMult(a.V)
 			IP, ok := ecurve.Iso448(P)
 			if !ok || !tw.IsOnCurve(IP) {
-				{t.Errorf("Iso448(%s) not on the twist", a.Name); return }
+				{
+					t.Errorf("Iso448(%s) not on the twist", a.Name)
+					return
+				}
 			}
 			back, ok := ecurve.Iso448Dual(IP)
 			if !ok || !c.Equal(back, c.ScalarMult(big.NewInt(4), P)) {
-				{t.Errorf("Iso448Dual(Iso448(%s)) != [4]P", a.Name); return }
+				{
+					t.Errorf("Iso448Dual(Iso448(%s)) != [4]P", a.Name)
+					return
+				}
 			}
 			for j, b := range logs {
 				Q := c.BaseMult(b.V)
 				IQ, _ := ecurve.Iso448(Q)
 				IS, _ := ecurve.Iso448(c.Add(P, Q))
 				if !tw.Equal(IS, tw.Add(IP, IQ)) {
-					{t.Errorf("Iso448 is not additive at %s, %s", a.Name, b.Name); return }
+					{
+						t.Errorf("Iso448 is not additive at %s, %s", a.Name, b.Name)
+						return
+					}
 				}
 				r.Distinct("iso448", i, j)
 			}
 			if !tw.Equal(IP, tw.BaseMult(a.V)) {
-				{t.Errorf("twist BaseMult(%s) != Iso448([a]G)", a.Name); return }
+				{
+					t.Errorf("twist BaseMult(%s) != Iso448([a]G)", a.Name)
+					return
+				}
 			}
 			r.Eval(1)
 		}
 		if !tw.IsIdentity(tw.ScalarMult(tw.N, tw.G)) || tw.IsIdentity(tw.G) {
-			{t.Error("twist448: order of base point"); return }
+			{
+				t.Error("twist448: order of base point")
+				return
+			}
 		}
-	}
+	})
 	// ---- FourQ: parameters as printed in the paper, group order 392*N
-	{
+	sections = append(sections, func() {
 		c := ecurve.FourQ()
 		if c.D.B.Text(16) != "5e472f846657e0fcb3821488f1fc0c8d" || c.D.A.Text(16) != "e40000000000000142" {
-			{t.Errorf("FourQ: d = %v", c.D); return }
+			{
+				t.Errorf("FourQ: d = %v", c.D)
+				return
+			}
 		}
 		if !c.IsOnCurve(c.G) || !c.IsIdentity(c.ScalarMult(c.N, c.G)) || c.IsIdentity(c.G) || !c.N.ProbablyPrime(20) {
-			{t.Error("FourQ: base point / order"); return }
+			{
+				t.Error("FourQ: base point / order")
+				return
+			}
 		}
 		full := new(big.Int).Mul(c.N, big.NewInt(392))
 		outside := 0
-		for y0 := int64(2); y0 < 40; y0++ {
+		for y0 := int64(2); y0 < 12; y0++ {
 			for y1 := int64(0); y1 < 2; y1++ {
 				P, _, ok := c.LiftY(c.F.Int2(y0, y1))
 				if !ok {
 					continue
 				}
 				if !c.IsOnCurve(P) || !c.IsIdentity(c.ScalarMult(full, P)) {
-					{t.Errorf("FourQ: [392 N]P != O for y=(%d,%d)", y0, y1); return }
+					{
+						t.Errorf("FourQ: [392 N]P != O for y=(%d,%d)", y0, y1)
+						return
+					}
 				}
 				if !c.IsIdentity(c.ScalarMult(c.N, P)) {
 					outside++
@@ -307,23 +390,32 @@ func TestVerifC13_refcheck(t *testing.T) {
 				enc := c.MarshalFourQ(P)
 				Q, err := c.UnmarshalFourQ(enc)
 				if err != nil || !c.Equal(P, Q) {
-					{t.Errorf("FourQ: encoding round trip y=(%d,%d)", y0, y1); return }
+					{
+						t.Errorf("FourQ: encoding round trip y=(%d,%d)", y0, y1)
+						return
+					}
 				}
 				r.Eval(2)
 				r.Distinct("fourq", y0, y1)
 			}
 		}
 		if outside == 0 {
-			{t.Error("FourQ: no point outside the prime-order subgroup found"); return }
+			{
+				t.Error("FourQ: no point outside the prime-order subgroup found")
+				return
+			}
 		}
 		for _, s := range curvealpha.Scalars(c.N, 256, 0) {
 			if !c.Equal(c.BaseMult(s.V), c.ScalarMult(s.V, c.G)) {
-				{t.Errorf("FourQ: BaseMult != ScalarMult at %s", s.Name); return }
+				{
+					t.Errorf("FourQ: BaseMult != ScalarMult at %s", s.Name)
+					return
+				}
 			}
 		}
-	}
+	})
 	// ---- ristretto255: RFC 9496 A.1 multiples of the generator
-	{
+	sections = append(sections, func() {
 		c := ecurve.Edwards25519()
 		vec := []string{
 			"0000000000000000000000000000000000000000000000000000000000000000",
@@ -346,24 +438,33 @@ func TestVerifC13_refcheck(t *testing.T) {
 		for i, v := range vec {
 			P := c.BaseMult(big.NewInt(int64(i)))
 			if got := hex.EncodeToString(ecurve.RistrettoEncode(P)); got != v {
-				{t.Errorf("ristretto255: [%d]B encodes to %s want %s", i, got, v); return }
+				{
+					t.Errorf("ristretto255: [%d]B encodes to %s want %s", i, got, v)
+					return
+				}
 			}
 			raw, _ := hex.DecodeString(v)
 			Q, err := ecurve.RistrettoDecode(raw)
 			if err != nil || !ecurve.RistrettoEqual(P, Q) || !c.IsOnCurve(Q) {
-				{t.Errorf("ristretto255: decode of [%d]B", i); return }
+				{
+					t.Errorf("ristretto255: decode of [%d]B", i)
+					return
+				}
 			}
 			// every representative of the coset P + E[4] encodes identically
 			T4, _, _ := c.LiftY(c.F.Zero()) // a point of order 4 (y = 0)
 			if got := hex.EncodeToString(ecurve.RistrettoEncode(c.Add(P, T4))); got != v {
-				{t.Errorf("ristretto255: coset representative of [%d]B encodes to %s", i, got); return }
+				{
+					t.Errorf("ristretto255: coset representative of [%d]B encodes to %s", i, got)
+					return
+				}
 			}
 			r.Eval(3)
 			r.Distinct("ristretto", i)
 		}
-	}
+	})
 	// ---- GF(p^12) tower: a field of p^12 elements (x^(p^12) = x), Exp additive in the exponent
-	{
+	sections = append(sections, func() {
 		tw := fpx.NewTower12(wcurve.BLS12381P())
 		var x fpx.E12
 		for i := 0; i < 2; i++ {
@@ -373,17 +474,32 @@ func TestVerifC13_refcheck(t *testing.T) {
 		}
 		p12 := new(big.Int).Exp(tw.F2.P, big.NewInt(12), nil)
 		if !tw.Equal(tw.Exp(x, p12), x) {
-			{t.Error("fpx.Tower12: x^(p^12) != x"); return }
+			{
+				t.Error("fpx.Tower12: x^(p^12) != x")
+				return
+			}
 		}
 		a, b := big.NewInt(0xabcdef), fpx.FromBE(verifmc.Shake("c13/fp12/e", 32))
 		if !tw.Equal(tw.Mul(tw.Exp(x, a), tw.Exp(x, b)), tw.Exp(x, new(big.Int).Add(a, b))) {
-			{t.Error("fpx.Tower12: x^a x^b != x^(a+b)"); return }
+			{
+				t.Error("fpx.Tower12: x^a x^b != x^(a+b)")
+				return
+			}
 		}
 		if !tw.Equal(tw.Mul(x, tw.One()), x) {
-			{t.Error("fpx.Tower12: one"); return }
+			{
+				t.Error("fpx.Tower12: one")
+				return
+			}
 		}
 		r.Eval(4)
 		r.Distinct("fp12")
-	}
-	r.RequireCounter("none", 0)
+	})
+	secs := make([]float64, len(sections))
+	verifmc.ParallelFor(len(sections), func(i int) {
+		t0 := time.Now()
+		sections[i]()
+		secs[i] = time.Since(t0).Seconds()
+	})
+	r.Set("section_wall_s", secs)
 }
